@@ -484,3 +484,29 @@ Proof.
   - exact Hok.
   - specialize (Hall n Hn). lra.
 Qed.
+
+(** ** One Metropolis step with a candidate outside of the bounded domain: the acceptance probability is exactly 0
+    whatever the densities are (also at a current point of density 0, where pi(y)/pi(x) is not defined: the code
+    does not divide), and the accept test `u < 0` fails for every deviate u >= 0, the deviate 0 included. *)
+Theorem accept1_outside_any_density PDF lo hi x y : y < lo \/ hi < y ->
+  accept1 ROps PDF (Some (lo, hi)) x y = 0.
+Proof. exact (accept1_bounded_outside PDF lo hi x y). Qed.
+
+Theorem metro_step_keeps_outside_candidate_out PDF lo hi x y u : y < lo \/ hi < y -> 0 <= u ->
+  nltb ROps (unif ROps u (n0 ROps) (n1 ROps)) (accept1 ROps PDF (Some (lo, hi)) x y) = false.
+Proof.
+  intros Hy Hu. rewrite accept1_bounded_outside by assumption. rewrite unif01_R. cbn [nltb ROps n0].
+  destruct (Rltb_spec u 0); [lra|reflexivity].
+Qed.
+
+Theorem metro2_step_keeps_outside_candidate_out PDF x0 x1 y0 y1 x c u :
+  (fst c < x0 \/ x1 < fst c \/ snd c < y0 \/ y1 < snd c) -> 0 <= u ->
+  nltb ROps (unif ROps u (n0 ROps) (n1 ROps)) (accept2 ROps PDF (Some (x0, x1, y0, y1)) x c) = false.
+Proof.
+  intros Hc Hu. rewrite accept2_outside by assumption. rewrite unif01_R. cbn [nltb ROps n0].
+  destruct (Rltb_spec u 0); [lra|reflexivity].
+Qed.
+
+Example metro_step_keeps_outside_candidate_out_ex :
+  nltb ROps (unif ROps 0 (n0 ROps) (n1 ROps)) (accept1 ROps (fun _ => 0) (Some (0, 1)) (/2) 2) = false.
+Proof. apply metro_step_keeps_outside_candidate_out; lra. Qed.
